@@ -228,6 +228,17 @@ def run_case_files(vfiles, timeout=900):
     def one(f):
         with sem:
             rc, out = _run(['coqc'] + COQ_FLAGS + [f], timeout, cwd=os.path.dirname(f))
+        # only the printed result matters: drop the compiled output right away (disk), and the case file itself
+        # when it evaluated without error and is large (it is regenerated from the seed on replay)
+        base = f[:-2]
+        for ext in ('.vo', '.vok', '.vos', '.glob'):
+            try: os.remove(base + ext)
+            except OSError: pass
+        try: os.remove(os.path.join(os.path.dirname(f), '.' + os.path.basename(base) + '.aux'))
+        except OSError: pass
+        if rc == 0 and os.path.getsize(f) > (1 << 20):
+            try: os.remove(f)
+            except OSError: pass
         with lock:
             outs[f] = (rc, out)
     ths = [threading.Thread(target=one, args=(f,)) for f in vfiles]
